@@ -637,6 +637,24 @@ def perturbed(glob=0, shift=0.0, vclock=False):
         _rb.np = real_np
 
 
+def _other_flavours():
+    """More process history: buffers of the other flavours (discrete actions, custom keys / dtypes, prioritized) are built
+    and used, so state shared between instances (class attributes, module-level defaults) is touched before the job."""
+    from rl_blox.blox import replay_buffer as rbm
+
+    for b in (rbm.ReplayBuffer(3, discrete_actions=True), rbm.LAP(3, discrete_actions=True), rbm.PrioritizedReplayBuffer(3, discrete_actions=True)):
+        for i in range(4):
+            b.add_sample(observation=np.zeros(2), action=i % 2, reward=0.5, next_observation=np.ones(2), termination=bool(i % 2))
+    c = rbm.ReplayBuffer(2, keys=["a", "b"], dtypes=[np.float32, np.int16])
+    c.add_sample(a=1.5, b=2)
+    from rl_blox.blox.mapb import DUCB
+
+    d = DUCB(n_arms=2, upper_bound=1.0, gamma=0.9)
+    for r in (0.5, 1.0, 0.0):
+        d.choose_arm()
+        d.reward(r)
+
+
 def run_jobs(jobs, perturb):
     """jobs: [[name, sid, seed, net_seed], ...] -> {job key: result}. Each job is run under the same perturbation
     (global RNGs re-seeded per job so that a job's result does not depend on its position in the list)."""
@@ -649,6 +667,7 @@ def run_jobs(jobs, perturb):
             # bounds - runs BEFORE the job, so anything kept across calls is filled by the other run first
             with perturbed(**perturb):
                 run_digest(name, sid, seed + 77, net_seed, alt_bounds=True)
+                _other_flavours()
         with perturbed(**perturb):
             out[job_key(name, sid, seed, net_seed)] = run_digest(name, sid, seed, net_seed)
     return out
